@@ -21,7 +21,7 @@ PROPERTY = "C19"
 LEVEL = "exploration"
 RULE = (
     "generated streams / single messages / structures written as files in every input format (binary, hex, pcapng, "
-    "swtpm-log, auto) and converted with every output format (pretty, events, binary) as a stream, with --type T and with "
+    "swtpm-log, auto) and converted with every output format (pretty, events, binary) as a stream (the default type left out or named explicitly), with --type T and with "
     "--type Response --command C; stdin and several files (split at message boundaries, between a command and its response, inside a message; with --in binary and with auto-detection); malformed files (warn-mode output); misspelt type / command "
     "names and Response without a command; command names (one per first letter + a seed-dependent window; thorough all 117) each accepted for a failed response and refused when the first letter is doubled / dropped or '_', '2', 'x' is added; `type` on single messages and on successful responses consisting of one handle (values from every handle range in turn); `example` for command codes and type names; one "
     "evaluation = one CLI invocation; distinct = distinct (sub-command, input format, output format, type choice, outcome)"
@@ -164,7 +164,11 @@ def convert_shard(shard, rec, rng, tmp):
                 src, f_in = fmt_in[5:], "auto"
             cont = containers[src]
             p = write(tmp, f"s{k}.{src}", cont)
-            args = ["convert", "--out", fmt_out] + ([] if (f_in == "auto" and rng.random() < 0.5) else ["--in", f_in]) + [p]
+            # the default type may also be named explicitly (documented together with --in=auto); same result
+            explicit = ["--type", "CommandResponseStream"] if fmt_out != "events" else []
+            if explicit:
+                rec.count(f"explicit_stream_type_{f_in}")
+            args = ["convert", "--out", fmt_out] + explicit + ([] if (f_in == "auto" and rng.random() < 0.5) else ["--in", f_in]) + [p]
             compare_convert(rec, f"stream/{fmt_in}", args, f_in, fmt_out, "CommandResponseStream", cont, None,
                             dict(kind="convert", args=args[:-1], fmt_in=f_in, fmt_out=fmt_out, t="CommandResponseStream", container=cont.hex()))
         # single message with --type / --command
